@@ -705,7 +705,13 @@ func ruleR10(c *Ctx, prop string) {
 	c.counts["R10.repeat_sites"] += n
 	floor := map[string]int{"C14": 3, "C03": 3, "C04": 2, "C08": 1, "C06": 1, "C16": 1}
 	if n < floor[prop] {
-		c.undecided("R10", "R10:floor", "", fmt.Sprintf("%d Repeat sites found in scope (floor %d)", n, floor[prop]))
+		if m, u := c.tableCovered["table:multidirectional"], c.tableCovered["table:unidirectional"]; (prop == "C14" || prop == "C03") && m != "" && u != "" && n >= 1 {
+			// the scope is the two broadcast helpers: however many Repeat sites they share, the finite tables walked
+			// both helpers in full for every pair of shapes
+			c.note("R10", "R10:floor", "", fmt.Sprintf("%d Repeat sites found in scope (%d when the rule was written); both broadcast helpers are decided by the finite tables %s and %s", n, floor[prop], m, u))
+		} else {
+			c.undecided("R10", "R10:floor", "", fmt.Sprintf("%d Repeat sites found in scope (floor %d)", n, floor[prop]))
+		}
 	}
 }
 
@@ -1097,6 +1103,10 @@ type axisRun struct {
 	reshapes int
 	refused  int // invalid cells that end in an error on every path the walk could follow
 	aborted  bool
+	outWant  int // valid cells with a prescribed output shape
+	outOK    int // ... in which a tensor was created (WithShape) with exactly that shape and no other
+	retWant  int // valid cells with a prescribed shape of the returned tensor
+	retOK    int // ... in which the walk reached the return with a tensor of exactly that shape
 }
 
 func fmtInts(l []int64) string { return strings.ReplaceAll(fmt.Sprint(l), " ", ",") }
@@ -1179,6 +1189,15 @@ func (ar *axisRun) run(entry *ssa.Function, args []pval, cell *axisCell, init bo
 	p.onPanic = func(fn *ssa.Function, in ssa.Instruction, what string) {
 		ar.add("panic", in.Pos(), fn, cell, what)
 	}
+	shaped, shapedBad := false, false
+	defer func() {
+		if !init && !cell.refuse && cell.outShape != nil {
+			ar.outWant++
+			if shaped && !shapedBad {
+				ar.outOK++
+			}
+		}
+	}()
 	if !init {
 		p.onExt = func(fn *ssa.Function, call *ssa.Call, key string, operands []pval, h *pheap) {
 			if strings.HasSuffix(key, ".WithShape") && cell.outShape != nil && len(operands) == 1 && operands[0].k == pList {
@@ -1196,11 +1215,16 @@ func (ar *axisRun) run(entry *ssa.Function, args []pval, cell *axisCell, init bo
 				ar.reshapes++
 				if fmtInts(got) != fmtInts(cell.outShape) {
 					ar.add("wrong-shape", call.Pos(), fn, cell, fmtInts(got))
+					shapedBad = true
+				} else {
+					shaped = true
 				}
 				return
 			}
-			if strings.HasSuffix(key, "#Reshape") && fn != entry {
-				return // views inside helpers (ops.ReduceAxes) are judged by the helper's own contract
+			if strings.HasSuffix(key, "#Reshape") && fn != entry && !(fnPkgPath(fn) == fnPkgPath(entry) && fn.Object() != nil && !fn.Object().Exported() && fn.Signature.Recv() == nil) {
+				// views inside shared helpers (ops.ReduceAxes) are judged by the helper's own contract; an unexported
+				// function next to the operator is part of the operator
+				return
 			}
 			if strings.HasSuffix(key, "#Reshape") && cell.refuse && len(operands) == 2 && operands[1].k == pList {
 				l := h.lists[operands[1].i]
@@ -1360,6 +1384,9 @@ func (ar *axisRun) run(entry *ssa.Function, args []pval, cell *axisCell, init bo
 	if wantRet == nil {
 		wantRet = cell.outShape
 	}
+	if !cell.refuse && !init && wantRet != nil {
+		ar.retWant++
+	}
 	if !cell.refuse && !init && wantRet != nil && len(res) == 2 && (res[1].k == pNil || res[1].k == pUnknown) && res[0].k == pList && hres != nil {
 		// the shape of the tensor that is returned, however it was made
 		if l := hres.lists[res[0].i]; len(l) == 1 && l[0].k == pShaped {
@@ -1374,6 +1401,8 @@ func (ar *axisRun) run(entry *ssa.Function, args []pval, cell *axisCell, init bo
 				}
 				if okAll && fmtInts(got) != fmtInts(wantRet) {
 					ar.add("wrong-ret", entry.Pos(), entry, cell, fmtInts(got)+" instead of "+fmtInts(wantRet))
+				} else if okAll && res[1].k == pNil {
+					ar.retOK++
 				}
 			}
 		}
@@ -1921,6 +1950,16 @@ func ruleAxisAccept(c *Ctx, prop string) {
 			}
 			if invalid == 0 || ar.refused*10 >= invalid*9 {
 				c.tableCovered["R9f:"+label] = "R9f:" + label
+			}
+			if os.Getenv("R9FDEBUG") != "" {
+				fmt.Printf("R9FDEBUG %s returned shapes confirmed %d of %d, output shapes %d of %d\n", label, ar.retOK, ar.retWant, ar.outOK, ar.outWant)
+			}
+			if ar.outWant > 0 && ar.outOK == ar.outWant {
+				c.tableCovered["R9f:"+label+":out"] = fmt.Sprintf("R9f:%s (a tensor of the prescribed output shape, and of no other, is created in all %d valid cells)", label, ar.outWant)
+			}
+			if ar.retWant > 0 && ar.retOK == ar.retWant {
+				// every valid cell was followed to its return, and the returned tensor has the prescribed shape
+				c.tableCovered["R9f:"+label+":ret"] = fmt.Sprintf("R9f:%s (the returned tensor has the prescribed shape in all %d valid cells)", label, ar.retWant)
 			}
 		}
 		c.counts["R9f.invalid_cells"] += invalid
